@@ -358,6 +358,55 @@ theorem C05_abduce_projection_dist (h : InvHyp cb cu ax ay) (hw : WF wb wu ay) :
     simp only [← Finset.mul_sum, sum_post h, mul_one]
     exact sum_proj hw
 
+/-! ### 6b. repair 9ec2d8b: clamped belief masses, for ALL operands
+
+`inverse` clamps every belief mass `b[x] = p_xy[y][x] - u·ax[x]` at zero before `Simplex::normalized` (the uncertainty
+`u = max_u_xy[y]·(…)` is a product, not a difference, and is not clamped).  `abduce` / `abduce_with` end in `deduce_of`,
+which clamps both.  No well-formedness and no finiteness of the operands is assumed below. -/
+
+/-- every inverted conditional is the normalisation `Simplex::normalized b u` of belief masses none of which is below
+    zero (finite `≥ 0`, `+∞` or NaN) and of an uncertainty `u`; whenever that `u` is not below zero either, no belief mass
+    and not the uncertainty of the inverted conditional is below zero -/
+theorem C05_masses_nonneg_gen (conds : CondTab (XQ f) n m) (ax : Tab (XQ f) n) (ay : Tab (XQ f) m) (y : Fin m) :
+    ∃ (b : Tab (XQ f) n) (u : XQ f),
+      (inverse conds ax ay)[y] = Simplex.normalized b u ∧
+      (∀ x : Fin n, Scalar.lt b[x] (Scalar.zero : XQ f) = false) ∧
+      (Scalar.lt u (Scalar.zero : XQ f) = false →
+        (∀ x : Fin n, Scalar.lt ((inverse conds ax ay)[y]).b[x] (Scalar.zero : XQ f) = false) ∧
+        Scalar.lt ((inverse conds ax ay)[y]).u (Scalar.zero : XQ f) = false) := by
+  unfold inverse
+  simp only [Fin.getElem_fin, Vector.getElem_ofFn]
+  refine ⟨_, _, rfl, fun x => ?_, fun hu => XQ.notNeg_normalized _ _ (fun x => ?_) hu⟩ <;>
+  · simp only [Fin.getElem_fin, Vector.getElem_ofFn]
+    exact XQ.notNeg_clamp _
+
+/-- abduction (with a given or the marginal base rate on `Y`): no belief mass and not the uncertainty of the result
+    is below zero, for all operands whatsoever -/
+theorem C05_abduce_masses_nonneg_gen (wy : Simplex (XQ f) m) (conds : CondTab (XQ f) n m) (ax : Tab (XQ f) n)
+    (ay : Tab (XQ f) m) :
+    (∀ x : Fin n, Scalar.lt (abduceWith wy conds ax ay).b[x] (Scalar.zero : XQ f) = false) ∧
+    Scalar.lt (abduceWith wy conds ax ay).u (Scalar.zero : XQ f) = false :=
+  SLV.Props.C04.C04_masses_nonneg_gen _ _ _
+
+/-- … every finite belief mass and a finite uncertainty of an abduced opinion are `≥ 0` -/
+theorem C05_abduce_masses_nonneg_fin (wy : Simplex (XQ f) m) (conds : CondTab (XQ f) n m) (ax : Tab (XQ f) n)
+    (ay : Tab (XQ f) m) :
+    (∀ (x : Fin n) (q : ℚ), (abduceWith wy conds ax ay).b[x] = XQ.fin q → 0 ≤ q) ∧
+    (∀ q : ℚ, (abduceWith wy conds ax ay).u = XQ.fin q → 0 ≤ q) :=
+  SLV.Props.C04.C04_masses_nonneg_fin _ _ _
+
+/-- non-vacuity / FALSE before the repair: well-formed conditionals `[([0,0],1), ([0,1/2],1/2)]`, `a_Y = [1/2,1/2]` and
+    the (ill-formed, finite) base rate `a_X = [3/2, -1/2]`: the un-clamped `inverse` (`Pinned.inverseNoClamp`) returns for
+    `y₁` the masses `[0, -1/3]` with uncertainty `4/3 ≥ 0`; the model returns `[0, 0]`, `u = 1` -/
+example :
+    let conds : CondTab (XQ .f64) 2 2 := #v[⟨#v[.fin 0, .fin 0], .fin 1⟩, ⟨#v[.fin 0, .fin (1/2)], .fin (1/2)⟩]
+    let ax : Tab (XQ .f64) 2 := #v[.fin (3/2), .fin (-1/2)]
+    let ay : Tab (XQ .f64) 2 := #v[.fin (1/2), .fin (1/2)]
+    ((Pinned.inverseNoClamp conds ax ay)[(1 : Fin 2)]).b = #v[.fin 0, .fin (-1/3)] ∧
+    ((Pinned.inverseNoClamp conds ax ay)[(1 : Fin 2)]).u = .fin (4/3) ∧
+    ((inverse conds ax ay)[(1 : Fin 2)]).b = #v[.fin 0, .fin 0] ∧ ((inverse conds ax ay)[(1 : Fin 2)]).u = .fin 1 := by
+  decide +kernel
+
 /-! ### 7. non-vacuity -/
 
 /-- 2×3: two conditionals with different uncertainty; outcome `y₀` is equally likely (1/2) under both
